@@ -45,6 +45,7 @@ type profile struct {
 	reqKinds     []string
 	limitRunPct  int // percentage of histories that start by driving one subscription to the count limit
 	mutatePct    int // percentage of service messages structurally mutated (only C15 checks apply then)
+	metaPct      int // percentage of answers to HTTP requests that carry a meta object (default 25)
 	hauthPct     int // percentage of histories run with header authentication configured
 	burstPct     int // percentage of steps that issue 2-4 stimuli without settling in between
 }
@@ -185,6 +186,14 @@ func profiles() map[string]profile {
 	p.reqKinds = []string{"subscribe", "subscribe", "get", "call", "auth", "new", "unsubscribe"}
 	p.mutatePct = 30
 	ps["mutate"] = p
+
+	p = baseProfile("http") // mostly HTTP requests: GET/HEAD/POST/PUT/DELETE, header auth, meta status and headers
+	p.rids = []string{"m.a", "m.b", "c.a", "m.err", "q.m?q=a", "m.self", "m.r2e"}
+	p.wHTTP, p.wRequest, p.wAnswer, p.wEvent, p.wToken, p.wReset = 34, 8, 44, 6, 4, 2
+	p.reqKinds = []string{"subscribe", "call", "unsubscribe"}
+	p.hauthPct, p.metaPct = 50, 65
+	p.denyPct, p.getFailPct = 20, 10
+	ps["http"] = p
 
 	p = baseProfile("burst") // several stimuli at once: the gateway's goroutines really race
 	p.maxClients = 3
@@ -422,9 +431,11 @@ func (g *gen) answerOne(r *mockReq, drain bool) {
 			// answers to an HTTP POST: result, null result, error, each possibly with a meta status
 			var l string
 			var d []byte
-			switch g.r.intn(6) {
+			switch g.r.intn(7) {
 			case 0:
 				l, d = "err:system.methodNotFound", []byte(errJSON(reserr.CodeMethodNotFound))
+			case 6:
+				l, d = "err:custom.failure", []byte(errJSON("custom.failure"))
 			case 1:
 				w.answer(r, "timeout", nil, mq.ErrRequestTimeout)
 				return
@@ -731,10 +742,17 @@ func isHTTPReq(r *mockReq) bool {
 	return p.IsHTTP
 }
 
+func (g *gen) metaPct() int {
+	if g.p.metaPct > 0 {
+		return g.p.metaPct
+	}
+	return 25
+}
+
 // withMeta adds a meta object with a status to a JSON answer; statuses outside 300..599 must be
 // ignored by the gateway, the others end the HTTP request at once (C17).
 func (g *gen) withMeta(r *mockReq, label string, data []byte) (string, []byte) {
-	if data == nil || len(data) < 2 || data[len(data)-1] != '}' || !isHTTPReq(r) || !g.r.chance(1, 4) {
+	if data == nil || len(data) < 2 || data[len(data)-1] != '}' || !isHTTPReq(r) || !g.r.chance(g.metaPct(), 100) {
 		return label, data
 	}
 	g.metaN++
